@@ -452,12 +452,28 @@ func checkTokenLocation(ix *srcIndex, t token.Token, pastEOF int) string {
 
 // percentAnchoredAtOperand: the error token carries the position of a streamed token that is
 // followed by a PERCENT token before the statement ends.
-func percentAnchoredAtOperand(stream []token.Token, et token.Token) bool {
+func percentAnchoredAtOperand(all []token.Token, et token.Token) bool {
+	// what the parser sees: comments, Fastly control words and `pragma …;` runs are skipped (parser.go ReadPeek)
+	var stream []token.Token
+	for i := 0; i < len(all); i++ {
+		switch all[i].Type {
+		case token.COMMENT, token.FASTLY_CONTROL:
+			continue
+		case token.PRAGMA:
+			for i+1 < len(all) && all[i].Type != token.SEMICOLON && all[i].Type != token.EOF {
+				i++
+			}
+			if all[i].Type == token.SEMICOLON {
+				continue
+			}
+		}
+		stream = append(stream, all[i])
+	}
 	for i, st := range stream {
 		if st.Line != et.Line || st.Position != et.Position || st.Type == token.PERCENT {
 			continue
 		}
-		for j := i + 1; j < len(stream) && j <= i+8; j++ {
+		for j := i + 1; j < len(stream); j++ { // the operand may be a call with any number of tokens
 			if stream[j].Type == token.PERCENT {
 				return true
 			}
@@ -491,17 +507,22 @@ type fuelExhausted struct{ past, total int }
 
 func (f *fuelTokenizer) note(t token.Token) {
 	f.total++
-	if f.eofSeen {
-		f.past++
-		if f.past > 64 {
-			panic(fuelExhausted{f.past, f.total})
+	// the lexer also answers EOF for a NUL byte in the middle of the input and goes on with the next call:
+	// only an unbroken run of EOF answers means that the parser is asking beyond the end
+	if t.Type == token.EOF {
+		if f.eofSeen {
+			f.past++
+			if f.past > 64 {
+				panic(fuelExhausted{f.past, f.total})
+			}
 		}
+		f.eofSeen = true
+	} else {
+		f.eofSeen = false
+		f.past = 0
 	}
 	if f.limit > 0 && f.total > f.limit {
 		panic(fuelExhausted{f.past, f.total})
-	}
-	if t.Type == token.EOF {
-		f.eofSeen = true
 	}
 }
 
